@@ -447,6 +447,13 @@ def bspecStr : BSpec Float → String
   | .lengthBounds a b => s!"Len {a} " ++ (match b with | none => "-" | some v => toString v)
   | .rareCodons mf fr l => s!"Rare {fbits mf} {kvFStr fr} {locTok l}"
   | .cai lf lb ca l => s!"CAI {kvFStr lf} {kvCharFStr lb} {kvAAStr ca} {locTok l}"
+  | .kmers k rc l r d => s!"Kmers {k} {rc} {locTok l} {locTok r} " ++ (match d with
+      | none => "-"
+      | some d =>
+        let ints (l : List Int) : String := if l.isEmpty then "_" else joinWith "," ((l.mergeSort (· ≤ ·)).map toString)
+        let sqs (l : List Seq) : String := if l.isEmpty then "_" else joinWith "," ((sortSeqs l).map seqStr)
+        s!"{sqs d.locFixed};{ints d.locChanging};{sqs d.extFixed};{ints d.extChanging}")
+  | .hairpins st w l => s!"Hairpins {st} {w} {locTok l}"
 
 def bspec? : List String → Option (BSpec Float)
   | ["AvoidPattern", p, l] => do pure (.avoidPattern (← pat? p) (← locTok? l))
@@ -466,6 +473,16 @@ def bspec? : List String → Option (BSpec Float)
   | ["Len", a, b] => do pure (.lengthBounds (← int? a) (← optInt? b))
   | ["Rare", mf, fr, l] => do pure (.rareCodons (← floatOf? mf) (← kvF? fr) (← locTok? l))
   | ["CAI", lf, lb, ca, l] => do pure (.cai (← kvF? lf) (← kvCharF? lb) (← kvAA? ca) (← locTok? l))
+  | ["Kmers", k, rc, l, r, d] => do
+    let data ← if d == "-" then some none else
+      (match d.splitOn ";" with
+       | [f1, c1, f2, c2] => do
+         let ints (t : String) : Option (List Int) := if t == "_" then some [] else (t.splitOn ",").mapM int?
+         let sqs (t : String) : List Seq := if t == "_" then [] else (t.splitOn ",").map seqOf
+         pure (some (⟨sqs f1, ← ints c1, sqs f2, ← ints c2⟩ : KmerData))
+       | _ => none)
+    pure (.kmers (← nat? k) (rc == "true") (← locTok? l) (← locTok? r) data)
+  | ["Hairpins", st, w, l] => do pure (.hairpins (← nat? st) (← nat? w) (← locTok? l))
   | _ => none
 
 def locsOptStr : Option (List Loc) → String
@@ -482,6 +499,19 @@ def handleSpec (toks : List String) : Option String :=
       pure (match b.evaluate (seqOf sq) with
         | none => "raises"
         | some e => s!"{fbits e.score} ; {locsOptStr e.locs}")
+    | "spec.local", [_, spec, [l, rh], [sq]] => do
+      let b ← bspec? spec
+      let loc ← locTok? l
+      let rh ← (if rh == "-" then some none else (bool? rh).map some)
+      let r : Option (BSpec.Localized Float) := match b with
+        | .kmers k rc kl kr _ => BSpec.localizedKmers k rc kl kr loc rh (seqOf sq)
+        | _ => some (b.localized loc rh)
+      pure (match r with
+        | none => "raises"
+        | some .none => "none"
+        | some .same => "same"
+        | some .typeError => "typeerror"
+        | some (.new b') => bspecStr b')
     | "spec.local", [_, spec, [l, rh]] => do
       let b ← bspec? spec
       let loc ← locTok? l
